@@ -22,9 +22,13 @@ func C18_reader_next_message() {
 			return
 		}
 		if vChoose("how", 2) == 0 {
-			if _, err := vReadAllB(rd, 16); err != io.EOF {
+			p, err := vReadAllB(rd, 16)
+			if err != io.EOF {
 				return // invalid UTF-8 (text bytes are arbitrary here): not a delivered message
 			}
+			// ... and what it delivers is what a new reader would deliver: the message's bytes
+			// (mask keys are symbolic and independent per frame, equal keys included)
+			vAssert(vEqBytes(p, items[n].payload), "reader.next_message_read_as_new")
 		} else if rd.Discard() != nil {
 			return
 		}
@@ -33,6 +37,5 @@ func C18_reader_next_message() {
 		same = vAnd(same, vAnd(rd.utf8.state == 0, vAnd(rd.utf8.codep == 0, rd.utf8.accepted == 0)))
 		same = vAnd(same, rd.State == vSide(server))
 		vAssert(same, "reader.message_state_as_new")
-		_ = n
 	}
 }
